@@ -138,4 +138,88 @@ static inline uint64_t gen_aad_len()
         }
 }
 
+// ---------------------------------------------------------------- XTS
+typedef void (*xts_fn)(uint8_t *k2, uint8_t *k1, uint8_t *tw, uint64_t n, const uint8_t *in, uint8_t *out);
+typedef int (*xts_ifn)(const uint8_t *k2, const uint8_t *k1, const uint8_t *tw, uint64_t n, const void *in, void *out);
+
+struct XtsFam {
+        std::string fam; // sse | avx | vaes | legacy | isal
+        int bits;
+        bool api = false;
+        void *fn[2][2]; // [dec][expanded]
+        bool runnable = true;
+        std::string label() const { return "xts" + std::to_string(bits) + "/" + fam; }
+};
+
+static inline std::vector<XtsFam> xts_families()
+{
+        std::vector<XtsFam> v;
+        for (int bits : { 128, 256 }) {
+                std::string b = std::to_string(bits);
+                for (const char *f : { "sse", "avx", "vaes", "legacy", "isal" }) {
+                        XtsFam x;
+                        x.fam = f;
+                        x.bits = bits;
+                        x.api = x.fam == "isal";
+                        for (int d = 0; d < 2; d++)
+                                for (int e = 0; e < 2; e++) {
+                                        std::string ed = d ? "dec" : "enc", n;
+                                        if (x.fam == "isal") n = "isal_aes_xts_" + ed + "_" + b + (e ? "_expanded_key" : "");
+                                        else if (x.fam == "legacy") n = "XTS_AES_" + b + "_" + ed + (e ? "_expanded_key" : "");
+                                        else n = "_XTS_AES_" + b + "_" + ed + (e ? "_expanded_key" : "") + "_" + f;
+                                        x.fn[d][e] = isal::sym(n);
+                                }
+                        if (!x.fn[0][0] && !x.fn[0][1] && !x.fn[1][0] && !x.fn[1][1]) continue;
+                        x.runnable = (x.fam == "legacy" || x.fam == "isal") ? isal::cpu().aesni : (isal::host_can_run(f) && isal::cpu().aesni);
+                        v.push_back(x);
+                }
+        }
+        return v;
+}
+
+
+// ---------------------------------------------------------------- key expansion + CBC
+namespace cbc {
+typedef void (*cbc_dec_fn)(void *in, uint8_t *iv, uint8_t *keys, void *out, uint64_t len);
+typedef int (*cbc_enc_fn)(void *in, uint8_t *iv, uint8_t *keys, void *out, uint64_t len);
+typedef int (*cbc_ifn)(const void *in, const void *iv, const void *keys, void *out, uint64_t len);
+
+enum { OP_KEYEXP = 0, OP_ENC = 1, OP_DEC = 2 };
+struct Ent {
+        int op, bits;
+        std::string fam;
+        void *fn;
+        bool api;
+        bool runnable;
+        std::string label() const { return std::string(op == OP_KEYEXP ? "keyexp" : op == OP_ENC ? "cbc_enc" : "cbc_dec") + std::to_string(bits) + "/" + fam; }
+};
+
+static inline std::vector<Ent> discover()
+{
+        std::vector<Ent> g_ents;
+        for (int bits : { 128, 192, 256 }) {
+                std::string b = std::to_string(bits);
+                auto add = [&](int op, const std::string &fam, const std::string &symname, bool api, bool runnable) {
+                        void *p = isal::sym(symname);
+                        if (p) g_ents.push_back(Ent{ op, bits, fam, p, api, runnable });
+                };
+                bool aes = isal::cpu().aesni;
+                add(OP_KEYEXP, "sse", "_aes_keyexp_" + b + "_sse", false, aes && isal::cpu().sse41);
+                add(OP_KEYEXP, "avx", "_aes_keyexp_" + b + "_avx", false, aes && isal::cpu().avx);
+                add(OP_KEYEXP, "legacy", "aes_keyexp_" + b, false, aes);
+                add(OP_KEYEXP, "isal", "isal_aes_keyexp_" + b, true, aes);
+                add(OP_ENC, "x4", "_aes_cbc_enc_" + b + "_x4", false, aes && isal::cpu().sse41);
+                add(OP_ENC, "x8", "_aes_cbc_enc_" + b + "_x8", false, aes && isal::cpu().sse41);
+                add(OP_ENC, "legacy", "aes_cbc_enc_" + b, false, aes);
+                add(OP_ENC, "isal", "isal_aes_cbc_enc_" + b, true, aes);
+                add(OP_DEC, "sse", "_aes_cbc_dec_" + b + "_sse", false, aes && isal::cpu().sse41);
+                add(OP_DEC, "avx", "_aes_cbc_dec_" + b + "_avx", false, aes && isal::cpu().avx);
+                add(OP_DEC, "vaes_avx512", "_aes_cbc_dec_" + b + "_vaes_avx512", false, aes && isal::host_can_run("vaes_avx512"));
+                add(OP_DEC, "legacy", "aes_cbc_dec_" + b, false, aes);
+                add(OP_DEC, "isal", "isal_aes_cbc_dec_" + b, true, aes);
+        }
+        return g_ents;
+}
+} // namespace cbc
+
 } // namespace ae
